@@ -89,8 +89,10 @@ def handle : Handler := fun j => do
     | some fromFiles =>
       let m := m0.merge fromFiles false
       let deps ← (← jarr j "deps").mapM depOfJson
+      let known := (jstrs j "known").toOption.getD []
       pure (Json.mkObj [("deps", Json.arr ((remapDeps m (← jstr j "flavor") deps).map depToJson).toArray),
-                        ("dump", dumpTable m.map)])
+                        ("dump", dumpTable m.map),
+                        ("declared", ofStrs (dummyDeclares m (← jstr j "flavor") known deps))])
   | "server" =>
     -- {files: [[tag, text]..], reqs: [{op: list|info|tagsfor, tag, flavor|null, product, version}], byTagOnly}
     let files ← (← jarr j "files").mapM fun f => do
